@@ -1,7 +1,7 @@
 /-
   C04 — the proposal WAIT TABLE with POOLED wait channels (node/node.go ProposeInternal / queueRequest, pkg/wait/wait.go).
 
-  What the code does (line numbers of /repo at 27b9af3):
+  What the code does (line numbers of /repo at 184e1b3):
 
     node/node.go
       133-139  type waitReqHeaders struct { wr wait.WaitResult; done chan struct{}; reqs …; buf …; pool *sync.Pool }
@@ -21,9 +21,11 @@
     pkg/wait/wait.go
       84-97    RegisterWithC(id, done): e := newResultData(done) — a FRESH resultData{value: nil, done: done} per
                registration; under the lock: m[id] == nil ? m[id] = e : log.Panicf("dup id")
-      103-118  Trigger(id, x): Lock; rd := m[id]; delete(m, id); Unlock;                    (part 1, under the lock)
+      103-121  Trigger(id, x): Lock; defer Unlock; rd := m[id]; delete(m, id);               (part 1)
                if rd != nil { rd.value = x; select { case rd.done <- struct{}{}: default: log.Panicf("done chan is full") } }
-                                                                                            (part 2, OUTSIDE the lock)
+                                                                                            (part 2)
+               Since fix 184e1b3 BOTH parts run under the lock (`atomicTrigger = true`).  BEFORE the fix the lock was dropped
+               between them (`w.l.Unlock()` after the delete; part 2 OUTSIDE the lock): `atomicTrigger = false`.
     node/state_machine.go: the apply path calls kvsm.w.Trigger(reqID, result) for every applied entry AFTER its effect
                (165,186,188,719…942), registered on this node or not.
 
@@ -35,11 +37,15 @@
   Steps (an adversary scheduler picks any sequence):
     propose pick   ProposeInternal up to and including the propose call: a pooled header (`pick = some c`, c in the pool)
                    or a new one; replacement test; RegisterWithC.  The id is the generator's next id.
-    applied id r   the apply path has applied entry `id` with result `r` and runs PART 1 of Trigger(id, r) (lookup +
-                   delete under the lock).  Enabled only for ids that were proposed (registration precedes the propose
-                   call, 632 < 633, so an entry is never applied before its registration).
-    signal id      PART 2 of that Trigger: rd.value = r; rd.done <- {} (panic when the buffer is full).  Trigger is NOT
-                   atomic: between `applied id r` and `signal id` any other step may be scheduled.
+    applied id r   the apply path has applied entry `id` with result `r` and runs Trigger(id, r).  Enabled only for ids
+                   that were proposed (registration precedes the propose call, 632 < 633, so an entry is never applied
+                   before its registration).  With `atomicTrigger` (the code since 184e1b3) the whole Trigger is this ONE step:
+                   every other access to the registration of `id` — the waiter's own Trigger(id, err) when it gives up —
+                   takes the same lock (same id, same shard), slot `id` is read by the waiter of `id` only after the
+                   signal, and the header of `id` cannot reach the pool before that waiter's Trigger returns.  Without it
+                   (the code BEFORE the fix) the step is PART 1 only (lookup + delete), and
+    signal id      is PART 2 of that Trigger: rd.value = r; rd.done <- {} (panic when the buffer is full); between
+                   `applied id r` and `signal id` any other step may be scheduled.  (A no-op under `atomicTrigger`.)
     timeout id     the waiter takes the ctx.Done() arm (deadline or cancel): Trigger(id, err), then release.
     fail id        the propose call of `id` returned an error: Trigger(id, err), then release(false) (640-641).
     wake id        the waiter takes the WaitC arm: consumes a signal from ITS channel, reads ITS result slot, releases.
@@ -82,10 +88,15 @@ structure Cfg where
   timeoutTriggers : Bool
   /-- node.go:640 a failed propose calls nd.w.Trigger(irr.Header.ID, err) before the header is released -/
   failTriggers : Bool
+  /-- wait.go:108-109 `w.l.Lock(); defer w.l.Unlock()`: Trigger deletes, stores and signals under the lock (fix 184e1b3) -/
+  atomicTrigger : Bool
   deriving DecidableEq, Repr
 
 /-- the unchanged code -/
-def Cfg.code : Cfg := ⟨true, true, true⟩
+def Cfg.code : Cfg := ⟨true, true, true, true⟩
+
+/-- the code BEFORE fix 184e1b3: Trigger dropped the lock between the delete and the store + signal -/
+def Cfg.preFix : Cfg := { Cfg.code with atomicTrigger := false }
 
 /-- ghost: what has happened so far (newest first) -/
 inductive Ev where
@@ -120,7 +131,7 @@ structure State where
   tab : Id → Option Ch              -- the wait table: id ↦ resultData.done
   slot : Id → Option Res            -- resultData.value of the registration of id (none: never written, reads as nil)
   waiter : Id → Option Ch           -- in-flight requests: id ↦ the `done` channel of the header it holds (= wr.WaitC())
-  gap : Id → Option (Ch × Res)      -- Triggers of the apply path between part 1 and part 2: id ↦ (rd.done, x)
+  gap : Id → Option (Ch × Res)      -- Triggers of the apply path between part 1 and part 2 (only without atomicTrigger): id ↦ (rd.done, x)
   panicked : Bool                   -- log.Panicf fired ("done chan is full" / "dup id"): the process is gone
   trace : List Ev                   -- ghost
 
@@ -149,32 +160,34 @@ def propose (cfg : Cfg) (s : State) (pick : Option Ch) : State :=
     { s with nextId := id + 1, nextCh := next2, pool := pool1, tab := upd s.tab id (some ch),
              waiter := upd s.waiter id (some ch), trace := .proposed id ch :: s.trace }
 
-/-- wait.go:103-118 Trigger(id, x), both parts at once (used where the caller is the waiter of `id` itself) -/
+/-- wait.go:103-121 Trigger(id, x), both parts at once (the waiter's own Trigger; the apply path's under `atomicTrigger`) -/
 def triggerNow (s : State) (id : Id) (x : Res) : State :=
   match s.tab id with
-  | none => s                                                           -- 109 rd == nil: nothing
+  | none => s                                                           -- 112 rd == nil: nothing
   | some ch =>
-    let s1 := { s with tab := upd s.tab id none, slot := upd s.slot id (some x) }   -- 107 delete; 110 rd.value = x
-    if s.full ch then { s1 with panicked := true }                      -- 114-115 done chan is full
-    else { s1 with full := upd s.full ch true }                         -- 113 rd.done <- struct{}{}
+    let s1 := { s with tab := upd s.tab id none, slot := upd s.slot id (some x) }   -- 111 delete; 113 rd.value = x
+    if s.full ch then { s1 with panicked := true }                      -- 117-118 done chan is full
+    else { s1 with full := upd s.full ch true }                         -- 116 rd.done <- struct{}{}
 
-/-- the apply path: entry `id` applied with result `r`; part 1 of Trigger (wait.go:105-108) -/
-def applied (s : State) (id : Id) (r : Res) : State :=
+/-- the apply path: entry `id` applied with result `r`, then Trigger(id, r) — all of it under the lock (`atomic`, the code since
+    184e1b3), or its part 1 only (before the fix: the rest is `signal`) -/
+def applied (atomic : Bool) (s : State) (id : Id) (r : Res) : State :=
   if id < s.nextId then
     let s1 := { s with trace := .applied id r :: s.trace }
-    match s.tab id with
+    if atomic then triggerNow s1 id r
+    else match s.tab id with
     | none => s1
     | some ch => { s1 with tab := upd s.tab id none, gap := upd s.gap id (some (ch, r)) }
   else s
 
-/-- part 2 of the apply path's Trigger (wait.go:109-117): store the result FIRST, then signal -/
+/-- part 2 of the apply path's Trigger when it is NOT atomic (before fix 184e1b3): store the result FIRST, then signal -/
 def signal (s : State) (id : Id) : State :=
   match s.gap id with
   | none => s
   | some (ch, r) =>
-    let s1 := { s with gap := upd s.gap id none, slot := upd s.slot id (some r) }    -- 110 rd.value = x
-    if s.full ch then { s1 with panicked := true }                      -- 114-115
-    else { s1 with full := upd s.full ch true }                         -- 113
+    let s1 := { s with gap := upd s.gap id none, slot := upd s.slot id (some r) }    -- rd.value = x
+    if s.full ch then { s1 with panicked := true }                      -- done chan is full
+    else { s1 with full := upd s.full ch true }                         -- rd.done <- struct{}{}
 
 /-- the waiter of `id` gives up: [Trigger(id, err)] then release (node.go:830-837+843, 640-641).  release (141-156) puts
     the header back with its `done` channel as it is. -/
@@ -202,7 +215,7 @@ def step (cfg : Cfg) (s : State) (st : Step) : State :=
   if s.panicked then s else
   match st with
   | .propose pick => propose cfg s pick
-  | .applied id r => applied s id r
+  | .applied id r => applied cfg.atomicTrigger s id r
   | .signal id => signal s id
   | .timeout id => giveUp cfg.timeoutTriggers s id
   | .fail id => giveUp cfg.failTriggers s id
